@@ -154,7 +154,7 @@ class Run:
         self.not_reproduced = 0
         self.extra = {}
         self.known = [k for k in load_known() if k.get("property") == pid]
-        os.makedirs(os.path.join(VERIF, "replays", pid), exist_ok=True)
+        os.makedirs(os.path.join(os.environ.get("SYMX_REPLAY_DIR", os.path.join(VERIF, "replays")), pid), exist_ok=True)
 
     # ---- bookkeeping
     def encode(self, *fns):
@@ -227,7 +227,7 @@ class Run:
     # ---- violations
     def replay_path(self, name):
         safe = "".join(c if c.isalnum() or c in "-_." else "_" for c in name)
-        return os.path.join(VERIF, "replays", self.pid, safe + ".py")
+        return os.path.join(os.environ.get("SYMX_REPLAY_DIR", os.path.join(VERIF, "replays")), self.pid, safe + ".py")
 
     def run_replay(self, path, timeout=600):
         env = dict(os.environ)
@@ -389,8 +389,9 @@ class Run:
         )
         if states < 1 or self.stats.queries < 1:
             self.inconclusive.append("no states/queries were explored")
-        os.makedirs(os.path.join(VERIF, "evidence"), exist_ok=True)
-        with open(os.path.join(VERIF, "evidence", f"{self.pid}.json"), "w") as f:
+        evdir = os.environ.get("SYMX_EVIDENCE_DIR", os.path.join(VERIF, "evidence"))
+        os.makedirs(evdir, exist_ok=True)
+        with open(os.path.join(evdir, f"{self.pid}.json"), "w") as f:
             json.dump(ev, f, indent=1)
         for line in self.known_lines:
             print(line)
